@@ -39,6 +39,7 @@ Range(q) == {q[i] : i \in 1 .. Len(q)}
 UnderT(e, z) == UNION {Range(u[2]) : u \in {v \in Range(e.under) : v[1] = z}}
 UnderJ(e, z) == UNION {Range(u[3]) : u \in {v \in Range(e.under) : v[1] = z}}
 BkOf(e) == [name |-> e.name, hasLevelLoc |-> e.hasLevelLoc, raises |-> Range(e.raises),
+            probe |-> e.probe, probeRaises |-> e.probeRaises,
             underT |-> [z \in Levels |-> UnderT(e, z) \cap Addr], underJ |-> [z \in Levels |-> UnderJ(e, z) \cap JunkIds],
             hasBulk |-> e.hasBulk, supportsTs |-> e.supportsTs, storesTs |-> e.storesTs]
 
